@@ -141,8 +141,8 @@ class Check:
             d = REPLAYS / self.prop
             d.mkdir(parents=True, exist_ok=True)
             path = d / f"{sha(r['replay'])}.json"
-            path.write_text(json.dumps({"property": self.prop, "key": r["key"], "what": r["what"],
-                                        "replay": r["replay"]}, indent=1, default=str))
+            path.write_text(json.dumps({"property": self.prop, "tier": self.tier, "seed": self.seed, "key": r["key"],
+                                        "what": r["what"], "replay": r["replay"]}, indent=1, default=str))
             log(f"  rejection: {r['what']}  key={canon(r['key'])}")
             print(f"VIOLATION property={self.prop} replay={path}")
         self._write_evidence(len(violations), absorbed)
